@@ -27,6 +27,10 @@ func Reply(code int, text string) Decision { return Decision{Kind: "reply", Code
 func Drop() Decision                       { return Decision{Kind: "drop"} }
 func Stall() Decision                      { return Decision{Kind: "stall"} }
 
+// Raw: send text verbatim (lines separated by "\n", written with CRLF) and close the connection - for
+// malformed replies (continuation lines with differing codes, missing final line).
+func Raw(text string) Decision { return Decision{Kind: "raw", Text: text} }
+
 // ParseDecision reads the case-file syntax: ok | drop | stall | <code>[:<text with _ for blanks>]
 func ParseDecision(s string) Decision {
 	switch s {
@@ -278,6 +282,13 @@ func (s *Server) Serve(conn net.Conn) {
 		switch d.Kind {
 		case "drop":
 			s.record(*e)
+			return false
+		case "raw":
+			// a malformed reply: Text is written verbatim (LF -> CRLF), then the connection is closed.  For the
+			// dialogue this is a drop (Code 0) - the bytes are what a client must not choke on.
+			e.Reply = strings.ReplaceAll(d.Text, "\n", "\r\n")
+			s.record(*e)
+			_, _ = conn.Write([]byte(e.Reply))
 			return false
 		case "stall":
 			s.record(*e)
